@@ -223,6 +223,52 @@ class History:
             self.log.append(f"repeat ops on pool[{i}] and on an equal rebuild")
 
 
+def directed_aliasing(ctx):
+    """every way a caller-owned container can be handed to the library, followed at once by every kind of mutation"""
+    def muts(c):
+        if isinstance(c, list):
+            return [lambda x: x.append(schema.str), lambda x: x.insert(0, schema.none), lambda x: x.clear(),
+                    lambda x: x.extend([schema.int, schema.int]), lambda x: x.__setitem__(slice(0, 1), [schema.bytes])]
+        return [lambda x: x.__setitem__("~new~", schema.int), lambda x: x.clear(), lambda x: x.update(a=schema.str),
+                lambda x: x.pop(next(iter(x)), None) if x else None]
+    makers = [
+        ("schema.list(L)", lambda: [[], [schema.int], [schema.int, ...], [..., schema.str], [..., schema.int, ...]], lambda c: schema.list(c)),
+        ("schema.dict(D)", lambda: [{}, {"a": schema.int}, {"a": schema.int, ...: ...}], lambda c: schema.dict(c)),
+        ("from_native(L)", lambda: [[], [1], [[1], []], [{"a": []}]], lambda c: from_native(c)),
+        ("from_native(D)", lambda: [{}, {"a": 1}, {"a": {}, "b": []}], lambda c: from_native(c)),
+        ("schema.list % L", lambda: [[], [1], [[]], [{}]], lambda c: substitute(schema.list, c)),
+        ("schema.dict % D", lambda: [{}, {"a": 1}, {"a": []}], lambda c: substitute(schema.dict, c)),
+        ("schema.any % L", lambda: [[], [1, [2]]], lambda c: substitute(schema.any, c)),
+        ("make_required(d, L)", lambda: [[], ["a"]], lambda c: make_required(schema.dict({optional("a"): schema.int, optional("b"): schema.int}), c)),
+    ]
+    for name, containers, build in makers:
+        n_variants = len(containers())
+        for i in range(n_variants):
+            probe = containers()[i]
+            for k in range(len(muts(probe))):
+                c = containers()[i]
+                try:
+                    s = build(c)
+                except Exception:
+                    continue
+                before = observe(s)
+                try:
+                    muts(c)[k](c)
+                    # nested members too
+                    for m in (c if isinstance(c, list) else list(c.values())):
+                        if isinstance(m, list):
+                            m.append(7)
+                        elif isinstance(m, dict):
+                            m["~deep~"] = 1
+                except Exception:
+                    pass
+                ctx.count("directed_aliasing_probes")
+                after = observe(s)
+                if after != before:
+                    ctx.violation("later mutation of a container that was passed in changed the schema built from it",
+                                  how=name, container_after=repr(c)[:200], before=repr(before)[:400], after=repr(after)[:400])
+
+
 def model_history(ctx, rnd, n):
     """the same kind of history through the model: the pool is append-only there by construction; compare pools"""
     g = SchemaGen(rnd, max_depth=2, customs=False)
@@ -275,6 +321,7 @@ def model_history(ctx, rnd, n):
 
 def run(ctx):
     runner.prove(ctx, MODULE, THEOREMS, FILES)
+    directed_aliasing(ctx)
     steps = ctx.n(30, 200)
     for h in range(ctx.n(25, 120)):
         H = History(ctx)
